@@ -5,6 +5,14 @@ from __future__ import annotations
 META_SECTIONS = ("General", "Editor", "Metadata", "Difficulty")
 
 
+def limbs(n: int):
+    """TLC integers are 32 bit: a value x1000 beyond +-2e9 (beatmap ids) is carried as (hi, lo) with n = hi * 10^9 + lo"""
+    if abs(n) <= 2_000_000_000:
+        return 0, n
+    hi = n // 1_000_000_000
+    return hi, n - hi * 1_000_000_000
+
+
 def _num(s):
     try:
         f = float(s)
@@ -47,7 +55,8 @@ def lex(text) -> dict:
             k, v = line.split(":", 1)
             v = v.strip()
             n, isn = _num(v)
-            tok["meta"].append({"key": k.strip(), "raw": v, "words": v.split(), "num": n, "isnum": isn})
+            hi, n = limbs(n)
+            tok["meta"].append({"key": k.strip(), "raw": v, "words": v.split(), "num": n, "hi": hi, "isnum": isn})
             if k.strip() == "CircleSize" and isn:
                 tok["keys"] = n // 1000
         elif sec == "Events":
